@@ -390,6 +390,10 @@ def run(prop, seed, budget, ctx):
     except (TypeError, ValueError): hist["clash-refused"] += 1
     except Exception as e:
         failures.append({"kind": "P", "why": ["name-clash-raises-" + type(e).__name__], "clash_src": clash_src, "k_ok": None})
+    import corners7
+    cf_, cn_, cd_, ch_ = corners7.run_part("C17", seed, budget)
+    failures += cf_; distinct |= cd_; evaluations += cn_
+    for k_, v_ in ch_.items(): hist[k_] += v_
     for f in failures: hist[("P:" + f["why"][0].split(":")[0]) if f["kind"] == "P" else "K"] += 1
     return {"evaluations": evaluations, "distinct_nontrivial": len(distinct),
             "rule": "generated graphs of 1-5 dataclasses referring to each other through fields, lists, Optional and tuples (shared, nested, recursive) x all_refs x "
